@@ -485,6 +485,20 @@ package twig
 //@   ensures operator == "^" ==> ret == PREC_POWER
 
 // and/or evaluate the right operand only when needed; the conditional evaluates exactly one branch
+// container nodes render what they contain in the context they were given themselves (what a set
+// does inside them is seen after them, blocks inside them see the chain of definitions)
+//@ func (*SpacelessNode).Render props: C10 C11 C09
+//@   atcall[C10,C11,C09] Node.Render a2 == ctx
+//@ func (*ApplyNode).Render props: C10 C11 C09
+//@   atcall[C10,C11,C09] Node.Render a2 == ctx
+//@ func (*IfNode).Render props: C10 C11
+//@   atcall[C10,C11,C09] Node.Render a2 == ctx
+//@ func (*BlockNode).Render props: C11 C09
+//@   atcall[C10,C11,C09] Node.Render a2 == ctx
+// a conditional is never decided by the parser: it keeps its three parts for the renderer, whose
+// notion of truth is the only one
+//@ func (*Parser).parseConditionalExpression props: C08
+//@   ensures[C08] err == nil ==> typeIs(ret0, "*ConditionalNode") && unboxAs(ret0, "*ConditionalNode").condition == condition
 //@ define binN() unboxAs(node, "*BinaryNode")
 //@ define condN() unboxAs(node, "*ConditionalNode")
 //@ define leftFalsy() !fn_toBool_0(ctx, evalRes(old(tr), binN().left, ctx))
@@ -575,6 +589,32 @@ package twig
 // name - for every kind of value, not only for strings
 //@ func renderVariableString props: C07
 //@   atcall[C07] (*RenderContext).ToString (str_contains(varName, "|") && len(parts) == 2 && ctx.env != nil) ==> isFilterEvent(fl) && lastFilterCtx(fl) == ctx && lastFilterName(fl) == nth(filterName, 2) && lastFilterVal(fl) == baseValue && a1 == lastFilterRes(fl)
+// the pieces of macro text around the {{ }} references are written as they stand; an opener that is
+// never closed is text too, from the text before it to the end
+//@ func renderVariableString props: C04
+//@   atcall[C04] (*bytes.Buffer).WriteString#1 a1 == substr(text, start, len(text))
+//@   atcall[C04] (*bytes.Buffer).WriteString#2 a1 == substr(text, start, start + nth(varStart, 1))
+//@   atcall[C04] (*bytes.Buffer).WriteString#3 a1 == substr(text, start, len(text))
+// the default policy allows exactly what its lists say is allowed: an entry that says false forbids
+//@ func (*DefaultSecurityPolicy).IsFilterAllowed props: C06
+//@   ensures[C06] ret == (has(p.AllowedFilters, filter) && p.AllowedFilters[filter])
+//@ func (*DefaultSecurityPolicy).IsFunctionAllowed props: C06
+//@   ensures[C06] ret == (has(p.AllowedFunctions, function) && p.AllowedFunctions[function])
+//@ func (*DefaultSecurityPolicy).IsTagAllowed props: C06
+//@   ensures[C06] ret == (has(p.AllowedTags, tag) && p.AllowedTags[tag])
+// the chain of a filter expression is a list of its own (a nested filter expression evaluated while
+// it is being built or applied cannot overwrite it), and the expression's value is what applying that
+// whole chain yields - no spelling of it goes around the filters
+//@ ghost lchain Slice
+//@ ghost lchainRes Iface
+//@ func (*RenderContext).ApplyFilterChain
+//@   ghostassign lchain chain
+//@   ghostassign lchainRes ret0
+//@ func (*RenderContext).DetectFilterChain props: C07
+//@   ensures[C07] ret2 == nil ==> freshArr(ret1) || len(ret1) == 0
+// (an impl block: the clause names a local, callers do not see it)
+//@ impl (*RenderContext).evaluateFilterNode props: C07
+//@   ensures[C07] ret1 == nil ==> lchain == filterChain && ret0 == lchainRes
 // the default sandbox policy treats the two names of the escape filter alike
 //@ func NewDefaultSecurityPolicy props: C07
 //@   ensures[C07] has(ret.AllowedFilters, "e") == has(ret.AllowedFilters, "escape") && (has(ret.AllowedFilters, "e") ==> ret.AllowedFilters["e"] == ret.AllowedFilters["escape"])
@@ -776,6 +816,9 @@ package twig
 //@   loop 1 invariant[C10] forall i int :: 0 <= i && i <= rangeindex && typeIs(n.children[i], "*BlockNode") ==> has(ctx.blocks, childBlock(i).name)
 //@   loop 1 invariant[C10] forall i int :: 0 <= i && i <= rangeindex && typeIs(n.children[i], "*BlockNode") ==> inChain(ctx.parentBlocks, childBlock(i))
 //@   loop 1 invariant[C10] forall k string :: !old(has(ctx.blocks, k)) && has(ctx.blocks, k) ==> (exists i int :: 0 <= i && i <= rangeindex && typeIs(n.children[i], "*BlockNode") && childBlock(i).name == k && ctx.blocks[k] == childBlock(i).body)
+// a template that is not being rendered as somebody's parent (rendered on its own, or included)
+// registers each of its top-level blocks as it comes, whatever was registered under that name
+//@   loop 1 step[C10,C11] !old(ctx.extending) && typeIs(n.children[rangeindex], "*BlockNode") ==> has(ctx.blocks, childBlock(rangeindex).name) && ctx.blocks[childBlock(rangeindex).name] == childBlock(rangeindex).body
 //@   loop 1 invariant[C10] extendsNode == nil ==> (forall i int :: 0 <= i && i <= rangeindex ==> !isExtNode(n.children[i]))
 //@   loop 1 invariant[C10] extendsNode != nil ==> (exists i int :: 0 <= i && i <= rangeindex && isExt(n.children[i], extendsNode))
 //@   atcall (*ExtendsNode).Render a2 == ctx && (exists i int :: 0 <= i && i < len(n.children) && isExt(n.children[i], a0))
@@ -1075,6 +1118,10 @@ package twig
 // no byte of a name is dropped: a round of the scanner that consumes one byte outside a string
 // without emitting a token does so for an ASCII byte only (white space, stray punctuation) - a
 // byte of a UTF-8 letter that vanished would turn x.ÜName into x.Name
+//@ func isOperator props: C08
+//@   pure
+//@   function
+//@   ensures[C08] c == 45 ==> ret
 //@ func isWhitespace props: C20 C08 C05
 //@   pure
 //@   function
@@ -1084,6 +1131,9 @@ package twig
 //@   loop 1 snapshot n0 len(t.tokenBuffer)
 //@   loop 1 snapshot in0 inString
 //@   loop 1 step[C20,C08] !in0 && !inString && len(t.tokenBuffer) == n0 && t.position == p0 + 1 ==> t.source[p0] < 128
+// a minus sign outside a string is always an operator token of its own (whether it negates or
+// subtracts is the parser's business, so "a -1", "a - 1" and "(a) -1" lex alike)
+//@   loop 1 step[C08] !in0 && p0 < len(t.source) && t.source[p0] == 45 ==> t.position == p0 + 1 && len(t.tokenBuffer) == n0 + 1 && t.tokenBuffer[n0].Type == TOKEN_OPERATOR
 
 // ---------------------------------------------------------------- literal text (C04)
 // a text token becomes a text node with the same content (see parseOuterTemplate); a text node and
